@@ -125,7 +125,7 @@ theorem mulWithMod_spec (a b c : List Rat) (hc : c ≠ []) (hcc : Canon c) (hn :
       simpa [toPoly] using this
     refine ⟨fromRaw (mulLoop c (c.length - 1) (lc c) a cur (List.replicate (c.length - 1) 0)), ?_, ?_,
       canon_fromRaw _, ?_⟩
-    · simp [mulWithMod, hz, h1, h2, hcur]
+    · simp [mulWithMod, hz, hc, h1, h2, hcur]
     · rw [toPoly_fromRaw]
       set R := mulLoop c (c.length - 1) (lc c) a cur (List.replicate (c.length - 1) 0) with hR
       have hdeg : (toPoly R).degree < (toPoly c).degree := by
